@@ -22,7 +22,13 @@ BOUNDS = {
 for _t in BOUNDS.values():
     _t["variants_beyond_the_base_enumeration"] = VARIANTS
 # dtype shadow: a float64 target receiving integer-dtype right-hand sides (differential concrete run)
-DTYPE_SHADOW = lambda cfg: "always" if cfg["h"] in ("whole_nd", "whole_num") else cfg["h"] in ("assign_fa", "history")
+def DTYPE_SHADOW(cfg):
+    if cfg["h"] in ("whole_nd", "whole_num"):
+        return "always"
+    if cfg["h"] == "history":
+        # histories that start with a whole-array fill by a number: always (the fill is an int there, what follows is not whole)
+        return "always" if (cfg["kinds"][0] == "num" and all(s[0] == "none" for s in cfg["seq"][0])) else True
+    return cfg["h"] == "assign_fa"
 OPTS = {"quick": dict(shadow_every=60), "thorough": dict(shadow_every=400)}
 
 TARGETS_Q = ["a2", "a2b3", "b3a2", "a2b2", "a2b3c2"]
@@ -309,6 +315,8 @@ def run(cfg, w):
                 key = Ellipsis
             if kind == "num":
                 k = w.real(f"k{i}")
+                if getattr(w, "int_arrays", False) and i == 0:
+                    k = int(round(k)) or 1  # dtype shadow: the first fill is a Python int (a[...] = 0), later numbers are not whole
                 t[key] = k
                 for pos in np.ndindex(*tuple(len(x) for x in out_idx)):
                     model[src_index(sel, td, pos)] = k
